@@ -342,6 +342,8 @@ def diff(a: Any, b: Any, path: str = "") -> Optional[str]:
             if d:
                 return d
         return None
+    if isinstance(a, float) and isinstance(b, float) and abs(a - b) <= 1e-6:
+        return None  # the same instant: the two clocks add up their delays in different orders
     if a != b:
         return f"{path}: asyncio {a!r} != trio {b!r}"[:600]
     return None
